@@ -540,7 +540,18 @@ class Gen(object):
             f['to'] = rng.choice(targets)
             f['attrs']['null'] = True
             f['attrs'].pop('unique', None)
-            return {'op': 'AddField', 'model': m['name'], 'field': f}
+            mut = {'op': 'AddField', 'model': m['name'], 'field': f}
+            if rows is not None and rng.random() < 0.4:
+                # a nullable relation may still declare an initial value:
+                # every existing row then points at that parent row
+                ta, tm = f['to'].split('.')
+                tmodel = spec.find_model(state['apps'][ta]['models'], tm)
+                parents = rows.get(spec.table_name(ta, tmodel), []) \
+                    if tmodel else []
+                nrows = len(rows.get(table, []))
+                if parents and (f['kind'] == 'ForeignKey' or nrows <= 1):
+                    mut['initial'] = parents[0]['id']
+            return mut
         n = self.free_field_name(m, FIELD_NAMES)
         if n is None:
             return None
@@ -789,7 +800,12 @@ class Gen(object):
             return {'op': 'ChangeMeta', 'model': m['name'], 'prop': prop,
                     'value': new}
         if prop in ('unique_together', 'index_together'):
-            if cur and r < 0.4:
+            multi = [x for x in cur if len(x) >= 2
+                     and list(reversed(x)) not in [list(y) for y in cur]]
+            if multi and rng.random() < 0.3:
+                # the same columns in another order: a different index
+                cur.append(list(reversed(rng.choice(multi))))
+            elif cur and r < 0.4:
                 cur.pop(rng.randrange(len(cur)))
             else:
                 t = self.gen_together(m)
